@@ -150,4 +150,22 @@ theorem nested_walkList (rw : Expr → Option String) : ∀ (ds : List FExpr) (s
     (cases d.rangeErr <;> cases rangeErrList ds <;> simp)
 end
 
+/-- `strconv.ParseFloat` returned no error ⇒ its value is finite (the contract for digit strings;
+the `err != nil` guard itself is `tie_parseFloatGuard`) -/
+def PEv.numOk : PEv → Bool
+  | .atomNum v rangeErr => rangeErr || v.isFinite
+  | _ => true
+
+/-- every number literal anywhere in the parser state is finite -/
+def PState.numsFinite (st : PState) : Bool :=
+  numbersFiniteList st.stack && numbersFiniteList st.selectItems && numbersFiniteList st.orderBy &&
+    (match st.curOrderBy with | some (e, _) => e.numbersFinite | none => true) && st.havingStmt.numbersFinite
+
+
+/-- the effect of a `boolExpr` derivation on a state in HAVING mode -/
+def applyBool (st : PState) (stack : List Expr) (b : BExpr) : PState :=
+  { st with stack := stack, allFields := st.allFields || b.hasStar,
+            err := if b.rangeErr then some .parseFloat else st.err }
+
+
 end LinVerif.Stmt
